@@ -63,6 +63,13 @@ def build(tier, seed):
             return c
         mk.__name__ = name
         return mk
+    def _psb():
+        from contracts import scoping
+        from bounded import c07
+        c = scoping.parent_submodule_block(PROP)
+        c.search_fn = c07.search
+        return c
+    _psb.__name__ = "parent_submodule_block"
     tasks = [a_task(PROP, _get_deps),
              Task(f"{PROP}.S.deplist", PROP, "Project.correlate deplist", lambda: __import__("contracts.deps", fromlist=["x"]).deplist_obligations(PROP, lambda: __import__("bounded.c13", fromlist=["x"]).search())),
              Task(f"{PROP}.S.local_variables", PROP, "FortranType.correlate", lambda: graphsc.local_variables_obligations(PROP)),
@@ -71,6 +78,7 @@ def build(tier, seed):
              Task(f"{PROP}.S.add_node", PROP, "add_node methods", _replay(graphsc.add_node_obligations)),
              Task(f"{PROP}.S.adjacency", PROP, "node constructors", _replay(graphsc.adjacency_obligations)),
              Task(f"{PROP}.S.find_used_modules.lookup", PROP, "find_used_modules", lambda: __import__("contracts.external", fromlist=["x"]).find_used_modules_lookup(PROP, lambda: __import__("bounded.c06", fromlist=["x"]).search())),
+             a_task(PROP, _psb),
              Task(f"{PROP}.S.file_identity", PROP, "FileNode.__init__", lambda: __import__("contracts.plumbing", fromlist=["x"]).file_dependencies_by_identity(PROP, lambda: __import__("bounded.c13", fromlist=["x"]).search())),
              Task(f"{PROP}.S.graph_false", PROP, "project-wide graphs", lambda: graphsc.project_graphs_respect_graph_false(PROP, lambda: __import__("bounded.c13", fromlist=["x"]).search())),
              a_task(PROP, _wc("assoc_getitem")), a_task(PROP, _wc("assoc_contains")), bounded_task()]
